@@ -284,6 +284,8 @@ def run(ctx):
     ck.ob("C16-R4", "-", "do_remapping_loop_these_devices-callers-are-the-filtered-entry-points", set(these) <= {"remapping_loop::do_remapping_loop_all_devices", "remapping_loop::do_remapping_loop_multiple_devices"}, detail=str(these))
     ck.explanation = "sibling comparison over %d line prefixes and %d intermediate values of the B: KEY= arm; listing and exclusion routes checked." % (len(p1), len(l1))
     r5_mask_words(ctx, ck)
+    from . import c17
+    c17.cli_exclude_rule(ctx, ck, "C16-R6")
 
 
 def _pat_variant(p):
